@@ -30,6 +30,13 @@ def stdout_sinks(cg, q):
     return out
 
 
+# unguarded constant indexes confirmed by reading to be unreachable, one reason each
+ARGLIST_INDEX_EXCEPTIONS = {
+    ("xdis.opcodes.opcode_36.extended_format_CALL_FUNCTION_KW", "arglist[0]"):
+        "under `instructions[1].opname == 'MAKE_FUNCTION'`, but instructions[1] of a CALL_FUNCTION_KW is always the LOAD_CONST of the keyword-name tuple",
+}
+
+
 def operand_walk_rule(rep, repo):
     """R6: the two ways the operand walk of the extended formatters can run off the instruction window."""
     from ..repo import enclosing_function, norm
@@ -80,6 +87,122 @@ def operand_walk_rule(rep, repo):
                        where=repo.where(m, n), msg="get_instruction_index_from_offset returns None when the offset is not in the window; using it as an index raises TypeError")
     rep.floor("arithmetic window indexes in the extended formatters", n_arith, 2)
     rep.floor("window lookups in the extended formatters", n_lookup, 4)
+    # (c) constant-index access to the argument list returned by get_arglist
+    n_idx = 0
+    registered = set()
+    for mq, mod in repo.modules.items():
+        if mq.startswith("xdis.opcodes."):
+            for d_ in ast.walk(mod.tree):
+                if isinstance(d_, ast.Dict):
+                    for v_ in d_.values:
+                        if isinstance(v_, ast.Name) and v_.id.startswith("extended_format_"):
+                            registered.add(v_.id)
+                elif isinstance(d_, ast.Assign) and isinstance(d_.targets[0], ast.Subscript) and isinstance(d_.value, ast.Name) and d_.value.id.startswith("extended_format_"):
+                    registered.add(d_.value.id)
+    for q, (m, fn) in sorted(repo.functions.items()):
+        if not (q.startswith("xdis.opcodes.") and "instructions" in {a.arg for a in fn.args.args}):
+            continue
+        if fn.name.startswith("extended_format_") and fn.name not in registered and not any(
+                isinstance(c_, ast.Call) and isinstance(c_.func, ast.Name) and c_.func.id == fn.name for m2 in repo.modules.values() for c_ in ast.walk(m2.tree)):
+            continue  # defined but neither registered in a formatter table nor called: unreachable from a listing
+        body_nodes = [n for n in ast.walk(fn) if enclosing_function(n) is fn]
+        lists = {}  # list variable -> count variable
+        for n in body_nodes:
+            if isinstance(n, ast.Assign) and isinstance(n.value, ast.Call) and isinstance(n.value.func, ast.Name) and n.value.func.id == "get_arglist" \
+                    and isinstance(n.targets[0], ast.Tuple) and len(n.targets[0].elts) == 3 and isinstance(n.targets[0].elts[0], ast.Name):
+                lists[n.targets[0].elts[0].id] = n.targets[0].elts[1].id if isinstance(n.targets[0].elts[1], ast.Name) else None
+        for n in body_nodes:
+            if not (isinstance(n, ast.Subscript) and isinstance(n.value, ast.Name) and n.value.id in lists and isinstance(n.slice, ast.Constant) and isinstance(n.slice.value, int)):
+                continue
+            k = n.slice.value
+            lv, cv = n.value.id, lists[n.value.id]
+            n_idx += 1
+            guarded = False
+            p_ = getattr(n, "_parent", None)
+            child = n
+            while p_ is not None and p_ is not fn:
+                if isinstance(p_, ast.If) and any(child is s_ or child in ast.walk(s_) for s_ in p_.body):
+                    for c in ast.walk(p_.test):
+                        if isinstance(c, ast.Compare) and len(c.ops) == 1 and isinstance(c.left, ast.Name) and isinstance(c.comparators[0], ast.Constant) \
+                                and isinstance(c.comparators[0].value, int):
+                            if c.left.id == cv and ((isinstance(c.ops[0], ast.Eq) and c.comparators[0].value > k) or (isinstance(c.ops[0], ast.Gt) and c.comparators[0].value >= k)
+                                                    or (isinstance(c.ops[0], ast.GtE) and c.comparators[0].value > k)):
+                                guarded = True
+                        if isinstance(c, ast.Compare) and "len(%s)" % lv in norm(c):
+                            guarded = True
+                    tn = norm(p_.test)
+                    if k == 0 and (tn == lv or tn.startswith(lv + " and ") or (" and %s and " % lv) in (" " + tn + " ") or tn.startswith("(%s and" % lv) or tn.startswith("%s\n" % lv)):
+                        guarded = True
+                    if k == 0 and any(isinstance(v_, ast.Name) and v_.id == lv for b_ in ast.walk(p_.test) if isinstance(b_, ast.BoolOp) and isinstance(b_.op, ast.And) for v_ in b_.values):
+                        guarded = True
+                child = p_
+                p_ = getattr(p_, "_parent", None)
+            if not guarded and (q, norm(n)) in ARGLIST_INDEX_EXCEPTIONS:
+                rep.ob("R6", q, "arglist-index:%s" % norm(n), True, derived="confirmed exception: " + ARGLIST_INDEX_EXCEPTIONS[(q, norm(n))])
+                continue
+            rep.ob("R6", q, "arglist-index:%s" % norm(n), guarded, expected="guarded by the returned count (== n > index), len(%s) or, for index 0, the truth of %s" % (lv, lv),
+                   derived="guarded" if guarded else "no guard establishes %d item(s)" % (k + 1), where=repo.where(m, n),
+                   msg="%s can be empty (a call without arguments): %s raises IndexError in the extended formats" % (lv, norm(n)))
+    rep.floor("constant indexes into get_arglist results", n_idx, 8)
+    # (d) '%' format strings handed to the unary / binary / ternary helpers
+    n_fmt = 0
+    want_n = {"extended_format_unary_op": 1, "extended_format_binary_op": 2, "extended_format_ternary_op": 3}
+
+    def fmt_ok(fmt, n):
+        try:
+            fmt % tuple("x" * n)
+        except Exception as ex:
+            return False, "%s: %s" % (type(ex).__name__, ex)
+        return fmt.replace("%%", "").count("%s") == n, "placeholders"
+    dynamic = []
+    for q, (m, fn) in sorted(repo.functions.items()):
+        if not q.startswith("xdis.opcodes."):
+            continue
+        for c in ast.walk(fn):
+            if isinstance(c, ast.Call) and isinstance(c.func, ast.Name) and c.func.id in want_n and len(c.args) >= 3 and enclosing_function(c) is fn:
+                a = c.args[2]
+                if isinstance(a, ast.Constant) and isinstance(a.value, str):
+                    n_fmt += 1
+                    ok, why = fmt_ok(a.value, want_n[c.func.id])
+                    rep.ob("R6", q, "format:%r" % a.value, ok, expected="%d '%%s' placeholders, every other '%%' doubled" % want_n[c.func.id], derived=why, where=repo.where(m, c),
+                           msg="the format string %r raises or mis-renders when the operands are substituted" % a.value)
+                elif not (isinstance(a, ast.Name) and a.id in {x.arg for x in fn.args.args}):
+                    dynamic.append((q, m, c))
+    from ..tables import tables as _tables
+    T_ = _tables()
+    for q, m, c in dynamic:
+        # a format string computed from the operand: enumerate it over the operator table it is taken from
+        mod, _, name = q.rpartition(".")
+        ns = T_.F.load(mod).ns
+        f = ns.get(name)
+        src_ = ast.unparse(repo.functions[q][1])
+        ops = ns.get("_nb_ops") if "_nb_ops" in src_ else [("operand", 0), ("operand", 1)]
+        I = T_.F.load("xdis.instruction").ns.get("Instruction")
+        if not (isinstance(f, FuncRef) and isinstance(ops, list) and isinstance(I, ClassRef)):
+            rep.ob("R6", q, "format:computed", False, expected="a constant format string or one enumerable over _nb_ops", derived=norm(c.args[2])[:80], where=repo.where(m, c))
+            continue
+        seen_ = []
+
+        def hook(spec, name_, fv, args, kw, node):
+            if name_.split(".")[-1] in want_n and len(args) >= 3:
+                seen_.append((name_.split(".")[-1], args[2]))
+                return ("", None)
+            return NotImplemented
+        for k in range(len(ops)):
+            inst = Instance(I)
+            inst.attrs["argval"] = k
+            inst.attrs["arg"] = k
+            sp = Spec(T_.F, hooks=[hook])
+            before = len(seen_)
+            sp.run(f, [T_.F.load(mod), [inst]])
+            n_fmt += 1
+            got = seen_[before:] or [(None, None)]
+            hn, fmt = got[0]
+            ok, why = (fmt_ok(fmt, want_n[hn]) if isinstance(fmt, str) else (False, "format string not constant for operator %r: %s" % (ops[k], show(fmt))))
+            rep.ob("R6", q, "format:%s" % (ops[k][1] if isinstance(ops[k], tuple) and "_nb_ops" in src_ else "operand=%d" % k), ok, expected="a valid format string with %s placeholders" % (want_n.get(hn)),
+                   derived=fmt if isinstance(fmt, str) else why, where=repo.where(m, c),
+                   msg="operator %r gives the format string %r: %s" % (ops[k], fmt, why))
+    rep.floor("format strings of the %-based formatter helpers", n_fmt, 30)
 
 
 def _decoder_work(mname):
@@ -95,8 +218,10 @@ def run(rep, tier):
     rep.rule("R2", "in the listing loop every instruction is written exactly once, in iteration order, except CACHE entries (hidden) and, in xasm only, EXTENDED_ARG prefixes (folded)")
     rep.rule("R3", "the rendered offset, opcode name, '>>' mark and line number column come from that instruction's offset / opname / is_jump_target / starts_line")
     rep.rule("R4", "every format name pydisasm accepts is dispatched on somewhere in the listing code")
-    rep.rule("R6", "extended formatters (xdis/opcodes/format): an index into the instruction window computed by arithmetic on a walk position is preceded by a "
-                   "bounds test against len(instructions) that returns; every result of get_instruction_index_from_offset is tested for None before use")
+    rep.rule("R6", "extended formatters: an index into the instruction window computed by arithmetic on a walk position is preceded by a bounds test against "
+                   "len(instructions) that returns; every result of get_instruction_index_from_offset is tested for None before use; a constant index into the "
+                   "list returned by get_arglist is guarded by its length / count; every format string given to the %-based unary/binary/ternary helpers "
+                   "(constant, or enumerated over the 3.11+ operator table) has the right placeholders and escapes every other '%'")
     rep.rule("R5", "the instruction records the listing renders are the decoder's: per (opcode table, opcode) the offset/width/operand (C02 rules), "
                    "the operand value and text (C03 rules) and the jump target and label set (C04 rules) agree with Lib/dis.py of that version")
     T = tables()
@@ -258,19 +383,7 @@ def run(rep, tier):
     operand_walk_rule(rep, repo)
     # ---------------------------------------------------------------- R5 the decoded records (shared engine with C02/C03/C04)
     from . import dis_rules
-    names = sorted(T.reachable)
-    results = pmap(_decoder_work, names)
-    subs = {p: SubReport(p) for p in ("C02", "C03", "C04")}
-    nops = 0
-    for res in results:
-        for (p_, rule, construct, detail, ok, exp, got, where, msg) in res:
-            if p_ == "META":
-                nops += detail
-            elif p_ in subs:
-                subs[p_].ob(rule, construct, detail, ok, expected=exp, derived=got, where=where, msg=msg)
-    rep.floor("(table, opcode) decoder specialisations", nops, 4000)
-    for p_ in sorted(subs):
-        merge_sub(rep, subs[p_], "R5", p_)
+    dis_rules.restate_decoder(rep, T, "R5", tier)
     rep.extra["stdout_sink_sites_reachable"] = nsinks
     rep.extra["unresolved_calls"] = len(cg.unresolved)
     rep.assumptions = ["call resolution by the binding rules of xv/callgraph.py; unresolved attribute calls on container/stream method names are external",
